@@ -66,7 +66,7 @@ func buildQuery(vc *VC, o *Obligation) string {
 	for _, d := range o.Decls {
 		sb.WriteString(d + "\n")
 	}
-	for _, a := range vc.literalAxioms() {
+	for _, a := range append(vc.literalAxioms(), vc.containmentAxioms()...) {
 		sb.WriteString("(assert " + a + ")\n")
 	}
 	for _, a := range vc.asserts {
